@@ -161,6 +161,12 @@ func (r *resolver) enter(d Definition) ([]Definition, error) {
 	if hasCases, valid := d.(*Choice); valid {
 		for _, cident := range hasCases.CaseIdents() {
 			c := hasCases.cases[cident]
+			if on, err := checkFeature(c); err != nil {
+				return nil, err
+			} else if !on {
+				delete(hasCases.cases, cident)
+				continue
+			}
 			if _, err := r.addDefinitions(c, c.popDataDefinitions()); err != nil {
 				return nil, err
 			}
@@ -728,8 +734,11 @@ func (r *resolver) findGrouping(y *Uses) (*Grouping, error) {
 
 func (r *resolver) applyRefinements(u *Uses, parent Definition) error {
 	for _, refine := range u.refines {
-		if on, err := checkFeature(refine); !on || err != nil {
+		if on, err := checkFeature(refine); err != nil {
 			return err
+		} else if !on {
+			// only this refine is disabled, the ones after it still apply
+			continue
 		}
 		target := Find(parent.(HasDataDefinitions), refine.Ident())
 		if target == nil {
